@@ -102,6 +102,23 @@ func fixedScenarios(rng *wh.Rng, thorough bool) []Scenario {
 			{Caller: "drain", End: "timeout", Outcomes: []string{"ok"}}, {Caller: "never", End: "timeout", Outcomes: []string{"ok"}}}})
 		out = append(out, Scenario{AckErrs: ack, Shared: true, HookWait: true, Seed: rng.Next(), Reqs: append([]ReqSpec{}, reqs...)})
 	}
+	// the caller's context has its own deadline: later than the backend time-out (the backend time-out must still end the
+	// listener), earlier than it, and without a backend time-out
+	for _, ack := range []bool{false, true} {
+		for _, v := range []struct{ to, dl int }{{25, 3600000}, {3600000, 30}, {0, 30}} {
+			for _, nohook := range []bool{false, true} {
+				reqs := []ReqSpec{
+					{Caller: "drain", End: "timeout", Outcomes: []string{"slow"}, DeadlineMs: v.dl}, {Caller: "never", End: "timeout", Outcomes: []string{"ok"}, DeadlineMs: v.dl},
+					{Caller: "one", End: "timeout", Outcomes: []string{"err", "ok"}, DeadlineMs: v.dl}, {Caller: "drain", End: "timeout", Outcomes: []string{"err", "err", "ok"}, DeadlineMs: v.dl},
+					{Caller: "reply", End: "cancel", Outcomes: []string{"slow"}, DeadlineMs: v.dl},
+				}
+				if v.to > 0 && v.to < 1000 {
+					reqs = append(reqs, ReqSpec{Caller: "never", End: "timeout", Outcomes: []string{"slow"}}) // no caller deadline, same scenario
+				}
+				out = append(out, Scenario{AckErrs: ack, Shared: ack != nohook, TimeoutMs: v.to, NoHook: nohook, Seed: rng.Next(), Reqs: reqs})
+			}
+		}
+	}
 	// timeouts
 	for _, ack := range []bool{false, true} {
 		for _, shared := range []bool{true, false} {
@@ -160,6 +177,13 @@ func randomScenario(rng *wh.Rng, n int, ack, shared *bool) Scenario {
 		q.End = []string{"cancel", "cancel", "parent"}[rng.Intn(3)]
 		if small && rng.Intn(3) > 0 && q.Caller != "early" {
 			q.End = "timeout"
+			if rng.Intn(3) == 0 {
+				q.DeadlineMs = 3600000 // a caller deadline later than the backend time-out
+			}
+		}
+		short := false
+		if !small && rng.Intn(10) == 0 && q.Caller != "early" {
+			q.End, q.DeadlineMs, short = "timeout", 20+rng.Intn(30), true // the caller's own deadline ends the listener
 		}
 		if q.Caller == "reply" || q.Caller == "replyearly" || q.Caller == "sendfail" {
 			q.End = "cancel"
@@ -168,7 +192,7 @@ func randomScenario(rng *wh.Rng, n int, ack, shared *bool) Scenario {
 		for j := 0; j < k; j++ {
 			q.Outcomes = append(q.Outcomes, []string{"ok", "err", "err", "err", "bad", "panic", "pubfail"}[rng.Intn(7)])
 		}
-		waitsForListener := q.Caller == "early" || q.Caller == "replyearly" || q.End == "timeout" || (small && q.Caller == "reply")
+		waitsForListener := q.Caller == "early" || q.Caller == "replyearly" || q.End == "timeout" || ((small || short) && q.Caller == "reply")
 		if waitsForListener && rng.Intn(2) == 0 || q.Caller == "replyearly" {
 			// the reply is produced only after the listener finished (cancel / timeout strictly before the reply)
 			q.Outcomes = append(q.Outcomes[:rng.Intn(len(q.Outcomes))], "slow")
@@ -199,11 +223,11 @@ func randomScenario(rng *wh.Rng, n int, ack, shared *bool) Scenario {
 					replies++
 				}
 			}
-			if q.Caller == "never" && replies >= 2 {
+			if q.Caller == "never" && replies >= 2 && q.DeadlineMs == 0 {
 				sc.Park = &ParkSpec{Req: i, Nth: 2, Cancel: rng.Bool()}
 				break
 			}
-			if q.Caller == "one" && replies >= 3 {
+			if q.Caller == "one" && replies >= 3 && q.DeadlineMs == 0 {
 				sc.Park = &ParkSpec{Req: i, Nth: 3, Cancel: rng.Bool()}
 				break
 			}
@@ -215,7 +239,7 @@ func randomScenario(rng *wh.Rng, n int, ack, shared *bool) Scenario {
 func cmdCases(rng *wh.Rng, extra int) []cmdCase {
 	var out []cmdCase
 	str := func() string {
-		alphabet := []string{"a", "Z", "0", " ", "é", "漢", "\"", "\\", "\n", ":", "{", "}", "\x00", "~"}
+		alphabet := []string{"a", "Z", "0", " ", "é", "漢", "\"", "\\", "\n", ":", "{", "}", "\x00", "~", "%", "%s", "%d", "%%", "%!", "100% f"}
 		n := rng.Intn(6)
 		s := ""
 		for i := 0; i < n; i++ {
